@@ -70,6 +70,11 @@ func emit(fn, args, impl, oracle string) {
 	if (caseNo % *nshard) != *shard {
 		return
 	}
+	// a panic of the library is a failure of every property (none of the exercised entry points is documented to
+	// panic): where a case has no oracle for its value, the oracle is at least that
+	if oracle == "-" && (strings.HasPrefix(impl, "PANIC") || strings.HasPrefix(impl, "panic")) {
+		oracle = "nopanic"
+	}
 	fmt.Fprintf(out, "%s\t%s\t%s\t%s\n", fn, args, impl, oracle)
 }
 
